@@ -2064,4 +2064,62 @@ example : fdVerdict [114, 95] false exPar exFd
   decide
 
 
+
+/-! ### big proteins and the `u8` corner -/
+
+/-- **C05.spec_unique** — the specification determines the peptide sequences, their labels and their
+    semi flags: any two outputs accepted by `specOk` agree on them (only order and, among several
+    occurrences, the reported position are free). With `digest_meets_spec` this justifies judging big
+    proteins against the model's output (`fastVerdict`). -/
+theorem spec_unique (par : Params) (s : Seq) (out out' : List Digest)
+    (h : specOk par s out = true) (h' : specOk par s out' = true) (d : Digest) (hd : d ∈ out) :
+    ∃ d' ∈ out', d'.seq = d.seq ∧ d'.mc = d.mc ∧ d'.semi = d.semi := by
+  simp only [specOk, Bool.and_eq_true] at h h'
+  obtain ⟨⟨⟨⟨⟨_, hs⟩, _⟩, hl⟩, _⟩, hf⟩ := h
+  obtain ⟨⟨⟨⟨⟨_, _⟩, hc'⟩, hl'⟩, _⟩, hf'⟩ := h'
+  simp only [clSound, clComplete, clLabel, clSemi, List.all_eq_true, List.any_eq_true, produces,
+    Bool.and_eq_true, beq_iff_eq, Bool.or_eq_true, Bool.not_eq_true', decide_eq_true_eq,
+    beq_eq_false_iff_ne] at hs hc' hl hl' hf hf'
+  obtain ⟨c, hc, hp⟩ := hs d hd
+  obtain ⟨d', hd', hp'⟩ := hc' c hc
+  have hseq : d'.seq = d.seq := by rw [← hp', hp]
+  refine ⟨d', hd', hseq, ?_, ?_⟩
+  · obtain ⟨⟨c1, hc1, hp1, hm1⟩, hmin⟩ := hl d hd
+    obtain ⟨⟨c2, hc2, hp2, hm2⟩, hmin'⟩ := hl' d' hd'
+    have a1 : d.mc ≤ c2.mc := by
+      rcases hmin c2 hc2 with hne | hle
+      · exact absurd (hp2.trans hseq) hne
+      · exact hle
+    have a2 : d'.mc ≤ c1.mc := by
+      rcases hmin' c1 hc1 with hne | hle
+      · exact absurd (hp1.trans hseq.symm) hne
+      · exact hle
+    omega
+  · rw [hf d hd, hf' d' hd', hseq]
+
+/-- **C05.fastVerdict_model** — the big-protein verdict accepts the model's own output. -/
+theorem fastVerdict_model (s : Seq) (out : List Digest) : fastVerdict s out out = "ok" := by
+  simp [fastVerdict]
+
+-- non-vacuity: the big-protein verdict names a missing missed-cleavage peptide
+example : fastVerdict [65, 75, 65, 75]
+    (digest ⟨1, 1, 9, some ⟨.cls [75], none, true, false⟩⟩ [65, 75, 65, 75])
+    (digest ⟨0, 1, 9, some ⟨.cls [75], none, true, false⟩⟩ [65, 75, 65, 75]) = "bad:incomplete" := by decide
+
+
+/-- **C05.digestP_spec** — the only input on which the digest model panics is `missed_cleavages = 255`
+    with an enzyme (the `u8` overflow of `1 + missed_cleavages`); everywhere else it returns `digest`,
+    which meets the spec. -/
+theorem digestP_spec (par : Params) (s : Seq) (h : par.enzyme = none ∨ par.mc < 255) :
+    ∃ out, digestP par s = some out ∧ specOk par s out = true := by
+  refine ⟨digest par s, ?_, digest_meets_spec par s⟩
+  unfold digestP
+  rcases h with h | h
+  · simp [h]
+  · have : ¬ 255 ≤ par.mc := by omega
+    simp [this]
+
+example : digestP ⟨255, 1, 50, some ⟨.cls [75], none, true, false⟩⟩ [65, 75] = none := by simp [digestP]
+example : (digestP ⟨2, 1, 50, some ⟨.cls [75], none, true, false⟩⟩ [65, 75, 65]).map List.length = some 3 := by decide
+
 end Sage.C05
